@@ -209,14 +209,21 @@ func FindRendezvous(p *Prog) (*Rendezvous, error) {
 			continue
 		}
 		Instrs(fn, func(in ssa.Instruction) {
-			s, ok := in.(*ssa.Send)
-			if !ok {
+			var ch, x ssa.Value
+			switch s := in.(type) {
+			case *ssa.Send:
+				ch, x = s.Chan, s.X
+			case *ssa.Select:
+				for _, st := range s.States {
+					if st.Dir == types.SendOnly && chanFieldName(st.Chan) == rv.ReqField {
+						ch, x = st.Chan, st.Send
+					}
+				}
+			}
+			if ch == nil || chanFieldName(ch) != rv.ReqField {
 				return
 			}
-			if chanFieldName(s.Chan) != rv.ReqField {
-				return
-			}
-			if prm, ok := s.X.(*ssa.Parameter); ok && isFuncVoid(prm.Type()) {
+			if prm, ok := x.(*ssa.Parameter); ok && isFuncVoid(prm.Type()) {
 				rv.Queue = fn
 			}
 		})
